@@ -329,6 +329,54 @@ fn is_ascii(b: &[u8]) -> bool {
     ok
 }
 
+/// A source that is NOT fused: it follows a script of Some/None answers (an item may follow a None), then ends.
+pub struct Script {
+    pub plan: [Option<u8>; 5],
+    pub calls: usize,
+}
+impl Script {
+    pub fn nd() -> Script {
+        let vals: [u8; 5] = nd::any();
+        let some: [bool; 5] = nd::any();
+        let mut plan = [None; 5];
+        let mut i = 0;
+        while i < 5 {
+            if some[i] {
+                plan[i] = Some(vals[i]);
+            }
+            i += 1;
+        }
+        Script { plan, calls: 0 }
+    }
+}
+impl Iterator for Script {
+    type Item = u8;
+    fn next(&mut self) -> Option<u8> {
+        let r = if self.calls < 5 { self.plan[self.calls] } else { None };
+        self.calls += 1;
+        r
+    }
+}
+
+/// The callee keeps polling the iterator it was given and records every answer.
+#[cglue_trait]
+pub trait Poller {
+    fn poll_n(&mut self, it: CIterator<u8>, n: usize) -> usize;
+}
+pub struct PollRec {
+    pub seen: [Option<u8>; 6],
+}
+impl Poller for PollRec {
+    fn poll_n(&mut self, mut it: CIterator<u8>, n: usize) -> usize {
+        let mut i = 0;
+        while i < n && i < 6 {
+            self.seen[i] = it.next();
+            i += 1;
+        }
+        i
+    }
+}
+
 nd::harnesses! {
     /// Slice / string / zero-sized-element arguments: same address, length, elements.
     #[kani::unwind(7)]
@@ -528,6 +576,28 @@ nd::harnesses! {
             let mut i = 0;
             while i < l { assert!(e[i] == items[i] as u64); i += 1; }
         }
+    }
+
+    /// An iterator argument arrives IDENTICAL, also when it is not fused: the callee's k-th poll gets the source's
+    /// k-th answer (an item after a None is not lost) and the source is polled exactly as often as the callee polls.
+    #[kani::unwind(8)]
+    fn c02_iterator_argument_not_fused() {
+        let mut src = Script::nd();
+        let plan = src.plan;
+        nd::cover!(plan[0].is_none() && plan[1].is_some(), "an item follows a None");
+        let polls = nd::range(0, 6);
+        let mut rec = PollRec { seen: [None; 6] };
+        {
+            let mut obj = trait_obj!(&mut rec as Poller);
+            let done = obj.poll_n((&mut src).into(), polls);
+            assert!(done == polls);
+        }
+        let mut j = 0;
+        while j < polls {
+            assert!(rec.seen[j] == if j < 5 { plan[j] } else { None }, "the callee sees what the source answers");
+            j += 1;
+        }
+        assert!(src.calls == polls);
     }
 
     /// Every shape in return position.
